@@ -352,6 +352,9 @@ func runSpec(path string) {
 		}
 	}()
 	wf, nodes := buildWorkflow(s)
+	if os.Getenv("VERIF_QUIETLOG") != "" {
+		sp.InitLogError()
+	}
 	switch s.Run.Mode {
 	case "", "run":
 		wf.Run()
